@@ -59,13 +59,13 @@ RULE = ("one evaluation = one generated history (3-8 keys, inputs / normal / fir
 
 def _cfg_bits():
     bits = {"F11": "0", "F12": "0", "F40": "0"}
-    p = os.path.join(vlib.VERIF, "known_findings.d", "C05.json")
-    try:
-        for e in json.load(open(p)).get("findings", []):
-            if e.get("id") in bits and e.get("status") == "fixed":
-                bits[e["id"]] = "1"
-    except OSError:
-        pass
+    for p in (os.path.join(vlib.VERIF, "known_findings.json"), os.path.join(vlib.VERIF, "known_findings.d", "C05.json")):
+        try:
+            for e in json.load(open(p)).get("findings", []):
+                if e.get("property") == "C05" and e.get("id") in bits and e.get("status") == "fixed":
+                    bits[e["id"]] = "1"
+        except OSError:
+            pass
     return bits["F11"] + bits["F12"] + bits["F40"]
 
 
@@ -87,7 +87,10 @@ def _shard(args):
     ctx, binp, seed, n, idx, cfg = args
     out = os.path.join(ctx.work, f"s{idx}")
     os.makedirs(out, exist_ok=True)
-    cmd = [binp, "--seed", str(seed), "--tier", ctx.tier, "--out", out, "--n", str(n), "--cfg", cfg]
+    # every run is judged by the oracle; the hook trace of every run (thorough: of every 5th run, to bound the
+    # size of the work files) is replayed through the model
+    cmd = [binp, "--seed", str(seed), "--tier", ctx.tier, "--out", out, "--n", str(n), "--cfg", cfg,
+           "--trace-every", "1" if ctx.quick() else "5"]
     if ctx.replay:
         cmd += ["--replay", _replay_text(ctx.replay)]
     elif idx != 0:
@@ -116,7 +119,7 @@ def run(ctx, boost=1):
         res.disagreements.append({"line": 0, "op": "cargo build", "impl": log[-1500:], "model": ""})
         return res
     cfg = _cfg_bits()
-    ctx.notes.append(f"model configuration (f11 f12 f40) = {cfg} (from known_findings.d/C05.json: fixed => 1)")
+    ctx.notes.append(f"model configuration (f11 f12 f40) = {cfg} (from known_findings.json / known_findings.d/C05.json: fixed => 1)")
     shards = 1 if ctx.replay else ctx.jobs
     n = (3 if ctx.quick() else 18) * boost
     jobs = [(ctx, binp, ctx.seed * 1000 + i, n, i, cfg) for i in range(shards)]
